@@ -168,6 +168,18 @@ def msgacc_cell(P, A):
                 sig = 'carried-story-items-differ'
             elif got_body != want_body:
                 sig = 'carried-story-body-differs'
+        if sig is None and P.get('post_merge') and op == 'roStorySend':
+            ro = B.running_order([B.story(src_ids[0], slug='old', timing=B.timing_block(dur='10'),
+                                          body=[B.item('old-item')])], lead=2)
+            o1 = B.merge(ro, msg)
+            o2 = B.merge(ro, M.item_delete(src_ids[0], ['si1']))
+            o3 = B.merge(ro, M.item_insert(src_ids[0], None, [B.item('added-later')]))
+            if o1.raised or o2.raised or o3.raised:
+                sig = 'merge-sequence-raised'
+            else:
+                st2 = get('story')
+                if [i.id for i in st2.items] != want_items:
+                    sig = 'message-exposes-later-edits-of-the-running-order'
         if sig is None and msg.message_id != 2:
             sig = 'message-id'
         if sig is None and msg.ro_id != 'RO':
